@@ -53,4 +53,44 @@ def handle (line : String) : String :=
     | some (r, []) => showR r
     | _ => "FAIL"
 
+/-- a whole unit: declarations one after the other, each lifted as above -/
+partial def liftUnit (ws : List String) : Option (List Tok) :=
+  match ws with
+  | [] => some []
+  | ";" :: r => (liftUnit r).map (fun l => Tok.semi :: l)
+  | _ =>
+    let sp := ws.takeWhile (fun w => w == "s" || w == "typedef")
+    let rest := ws.drop sp.length
+    let spt : List Tok := sp.map (fun w => if w == "typedef" then Tok.tdef else Tok.sp 0)
+    if sp.isEmpty then none
+    else match rest with
+      | ";" :: r => (liftUnit r).map (fun l => spt ++ Tok.semi :: l)
+      | _ =>
+        -- the init-declarator list ends at the first `;` or `b` that the declarator parser leaves
+        let rec go (ws : List String) (acc : List Tok) : Option (List Tok × List String) :=
+          match PsycheModel.DeclParser.parseDeclarator (ws.map dtok) with
+          | none => none
+          | some (d, rest) =>
+            let after := ws.drop (ws.length - rest.length)
+            match after with
+            | "=" :: "i" :: "," :: r => go r (acc ++ [.dcl d, .eq, .ini 0, .comma])
+            | "=" :: "i" :: ";" :: r => some (acc ++ [.dcl d, .eq, .ini 0, .semi], r)
+            | "=" :: "i" :: "b" :: r => some (acc ++ [.dcl d, .eq, .ini 0, .body 0], r)
+            | "," :: r => go r (acc ++ [.dcl d, .comma])
+            | ";" :: r => some (acc ++ [.dcl d, .semi], r)
+            | "b" :: r => some (acc ++ [.dcl d, .body 0], r)
+            | _ => none
+        match go rest [] with
+        | some (l, r) => (liftUnit r).map (fun l2 => spt ++ l ++ l2)
+        | none => none
+
+def handleUnit (line : String) : String :=
+  let ws := (line.trimAscii.toString.splitOn " ").filter (· ≠ "")
+  match liftUnit ws with
+  | none => "FAIL"
+  | some l =>
+    match unit (l.length + 1) l with   -- sufficient: theorem unit_fuel_free
+    | some rs => " ; ".intercalate (rs.map showR)
+    | none => "FAIL"
+
 end Driver.DeclarationDrv
